@@ -59,7 +59,10 @@ def _cases(draw, tier):
         ops.append(draw(st.sampled_from(['solve', 'results', 'short', 'long', 'debug',
                                          'results', 'short', 'long', 'debug', 'other',
                                          'solve', 'results', 'short', 'long', 'debug',
-                                         'results', 'short', 'long', 'debug', 'touch_file'])))
+                                         'results', 'short', 'long', 'debug', 'touch_file',
+                                         'solve_cut'])))
+    cut = [draw(st.sampled_from([0, 0, 1, 2, 3])),
+           draw(st.sampled_from(['NotSolved', 'NotSolved', 'Infeasible', 'Undefined']))]
     # solve(timeLimit=...) of the successive solves (cyclic) and the steps of the owned clock:
     # a limit may be met by one solve and long exceeded when a later solve runs without one
     limits = draw(st.lists(st.sampled_from([None, None, None, 5, 60, 3600]), min_size=1,
@@ -70,7 +73,7 @@ def _cases(draw, tier):
     other = draw(strategies.option_sets(inst, max_crit=2, stab=False if bf else None))
     return {'inst': inst, 'opts': opts, 'bf': bf, 'ops': ops, 'salt': salt, 'mode': mode,
             'other_opts': other, 'threads': threads, 'odd_targets': odd_targets,
-            'limits': limits, 'steps': steps, 'touch': touch, 'touch_inst': sib,
+            'limits': limits, 'steps': steps, 'touch': touch, 'touch_inst': sib, 'cut': cut,
             'choices': draw(strategies.choice_lists)}
 
 
@@ -195,13 +198,30 @@ def _run_case(case):
             except (Violation, Exception):
                 pass
             continue
-        if op == 'solve':
+        if op in ('solve', 'solve_cut'):
             close_epoch(where)
             state['epoch'] += 1
             state['memo'] = {}
             state['seen'] = []
+            fired = []
+            hook = None
+            if op == 'solve_cut' and not bf:
+                # one underlying solve of this run ends without a proven optimum (a cut-short
+                # run, C14): nothing of it may influence the solves that follow
+                from pulp import constants as _c
+
+                def hook(backend, lp, rec, cut=case.get('cut') or [0, 'NotSolved']):
+                    if rec.index == cut[0]:
+                        for v in lp.variables():
+                            v.varValue = 0.0
+                        st_ = {'NotSolved': (_c.LpStatusNotSolved, _c.LpSolutionNoSolutionFound),
+                               'Infeasible': (_c.LpStatusInfeasible, _c.LpSolutionInfeasible),
+                               'Undefined': (_c.LpStatusUndefined,
+                                             _c.LpSolutionNoSolutionFound)}[cut[1]]
+                        lp.assignStatus(*st_)
+                        fired.append(cut[1])
             be = refbackend.Backend(case.get('mode', 'eb'), case['choices'],
-                                    salt=(case['salt'] + 7 * state['epoch']) % 60)
+                                    salt=(case['salt'] + 7 * state['epoch']) % 60, hook=hook)
             T = limits[(state['epoch'] - 1) % len(limits)]
             try:
                 with be:
@@ -211,7 +231,10 @@ def _run_case(case):
                 raise Violation('solve_raises' if state['epoch'] > 1 else 'first_solve_raises',
                                 '%s: %s' % (where, v.detail), exc=v.exc)
             state['comparable'] = True
-            if T is not None:
+            if fired:
+                state['comparable'] = False
+                state['labels'].add('cut_solve_in_history')
+            elif T is not None:
                 state['labels'].add('solve_with_limit')
                 try:
                     m = solver.model
@@ -224,7 +247,7 @@ def _run_case(case):
             continue
         call_getter(op, where)
     close_epoch('end of history %r' % (case['ops'],))
-    nsolves = case['ops'].count('solve')
+    nsolves = case['ops'].count('solve') + case['ops'].count('solve_cut')
     labels = ['other_solver_object'] * ('other' in case['ops']) + [
         'bf' if bf else 'lp', 'mode=' + case.get('mode', 'eb'),
         'solves=%d' % min(nsolves, 4), 'len=%d' % len(case['ops']),
@@ -262,3 +285,4 @@ MANIFEST = {
 }
 MANIFEST['text'] += (' ' + "Histories also contain the operation 'other' (a second Solver on the same file is created, solved and read); the status/criterion summary of a solve is read when its epoch ends, so the order of getter calls in the history is the order the object sees; threads in {None, 1, 2}; 15% of the cases have lecturer targets outside their quotas.")
 MANIFEST['text'] += (' ' + 'Each solve of a history has a drawn time limit (None, 5, 60, 3600 s) under an owned clock: a solve that exceeds its own limit is a cut-short run and is not compared, every other solve must reproduce solve 1 (a limit met earlier must not stick); the operation touch_file rewrites or deletes the instance file after construction.')
+MANIFEST['text'] += (' ' + 'The operation solve_cut is a solve in which one underlying solve is made to end Not Solved / Infeasible / Undefined: that epoch is a cut-short run, the solves after it must again reproduce solve 1.')
